@@ -17,7 +17,7 @@ Events == ndJsonDeserialize(IOEnv.TRACE)
 VARIABLES l, bad
 vars == <<l, bad>>
 
-Bound(law) == CASE law = "identity" -> 0 [] law = "alias" -> 0 [] law = "builtin" -> 0
+Bound(law) == CASE law = "identity" -> 0 [] law = "alias" -> 0 [] law = "aliastarget" -> 0 [] law = "builtin" -> 0
                 [] law = "thereback" -> 4 [] law = "triangle" -> 6
 NumOk(e) == e.ev = "num" /\ e.ulps <= Bound(e.law)
 
